@@ -1,0 +1,26 @@
+//go:build verif
+
+// Contracts for the distributed writer's response synchronizer and request switches (read as
+// text by /verif's govc; comment-only).
+
+package writer
+
+//@ ignorepkg github.com/synnaxlabs/alamos
+//@ ignorepkg go.uber.org/zap
+
+//@ # A response is forwarded (fulfilled) exactly when it is the nodeCount-th response of the
+//@ # current cycle carrying the cycle's sequence number: "a commit is acknowledged only when every
+//@ # involved leaseholder" has answered. Responses with a zero or foreign sequence number are never
+//@ # forwarded and leave the cycle untouched. 0 <= counter < nodeCount is the representation
+//@ # invariant.
+//@ func (s *synchronizer) sync(_ context.Context, res Response) (out Response, fulfilled bool, err error)
+//@   requires s.nodeCount >= 1 && 0 <= s.cycle.counter && s.cycle.counter < s.nodeCount
+//@   ensures err == nil
+//@   ensures 0 <= s.cycle.counter && s.cycle.counter < s.nodeCount && s.nodeCount == old(s.nodeCount)
+//@   ensures fulfilled == (res.SeqNum != 0 && (old(s.cycle.counter) == 0 || old(s.cycle.res.SeqNum) == res.SeqNum) && old(s.cycle.counter) + 1 == s.nodeCount)
+//@   ensures fulfilled ==> s.cycle.counter == 0
+//@   ensures res.SeqNum == 0 || (old(s.cycle.counter) != 0 && old(s.cycle.res.SeqNum) != res.SeqNum) ==> s.cycle.counter == old(s.cycle.counter) && __eq(s.cycle.res, old(s.cycle.res))
+//@   ensures res.SeqNum != 0 && (old(s.cycle.counter) == 0 || old(s.cycle.res.SeqNum) == res.SeqNum) && !fulfilled ==> s.cycle.counter == old(s.cycle.counter) + 1
+//@   ensures res.SeqNum != 0 && (old(s.cycle.counter) == 0 || old(s.cycle.res.SeqNum) == res.SeqNum) ==> s.cycle.res.SeqNum == res.SeqNum
+//@   ensures __eq(out, res)
+//@   modifies s
